@@ -215,6 +215,10 @@ def c20(idx: Index, rep: Report, tier: str) -> None:
 
 
 # ------------------------------------------------------------------------------------ C17
+def c17_leftover(idx: Index, rep: Report) -> None:
+    leftover_loop_variables(idx, rep, "C17.4 leftover-loop-variable", ("unified_planning.model.problem", "unified_planning.model.walkers.linear_checker", "unified_planning.model.mixins"))
+
+
 def c17(idx: Index, rep: Report, tier: str) -> None:
     """The sign analysis of a product must not depend on the order of its factors: inside the loop over the
     arguments, the accumulated positive / negative fluent sets may only grow (|=, update, add). Rebinding one
@@ -246,6 +250,7 @@ def c17(idx: Index, rep: Report, tier: str) -> None:
             rep.check(bad is None, rule, f"{m.name}: the accumulated fluent sets only grow inside the loop over the arguments", m.loc(bad) if bad is not None else m.loc(loop), construct=f"accumulators {sorted(acc)}" + ("" if bad is None else f"; rebound by `{norm(bad)[:60]}`"), detail="" if bad is None else "an accumulator is rebound from another one while the arguments are still being visited: the exchange reaches only the fluents of the factors seen so far, so the reported sign depends on where the negative factor stands in the product", function=m.qualname)
     rep.count("accumulating_loops", n)
     rep.require_min(rule, "accumulating_loops", 2)
+    c17_leftover(idx, rep)
 
 
 # ------------------------------------------------------------------------------------ C25
@@ -829,6 +834,16 @@ class _Raised(Exception):
     pass
 
 
+class _Prop:
+    """a computed attribute of a stub"""
+
+    def __init__(self, fn):
+        self.fn = fn
+
+    def __call__(self):
+        return self.fn()
+
+
 class _Returned(Exception):
     def __init__(self, value):
         self.value = value
@@ -966,16 +981,33 @@ class _OrderInterp:
         if isinstance(e, ast.Attribute):
             base = self._expr(e.value, env)
             if isinstance(base, _Stub) and e.attr in base._table:
-                return base._table[e.attr]
+                tv = base._table[e.attr]
+                return tv() if isinstance(tv, _Prop) else tv
             raise self.Unsupported(f"attribute {e.attr}")
-        if isinstance(e, ast.Call) and isinstance(e.func, ast.Attribute) and not e.args and not e.keywords:
+        if isinstance(e, (ast.GeneratorExp, ast.ListComp, ast.SetComp)) and len(e.generators) == 1 and isinstance(e.generators[0].target, ast.Name):
+            g = e.generators[0]
+            out = []
+            for x in list(self._expr(g.iter, env)):
+                env2 = dict(env)
+                env2[g.target.id] = x
+                if all(self._expr(c, env2) for c in g.ifs):
+                    out.append(self._expr(e.elt, env2))
+            return set(out) if isinstance(e, ast.SetComp) else out
+        if isinstance(e, ast.Call) and isinstance(e.func, ast.Name) and e.func.id in ("all", "any", "set", "len", "list", "tuple") and len(e.args) == 1:
+            v = list(self._expr(e.args[0], env))
+            return {"all": all(v), "any": any(v), "set": set(v), "len": len(v), "list": v, "tuple": tuple(v)}[e.func.id]
+        if isinstance(e, ast.Call) and isinstance(e.func, ast.Attribute) and not e.keywords:
             try:
                 base = self._expr(e.func.value, env)
             except self.Unsupported:
                 base = None
             if isinstance(base, _Stub):
                 if e.func.attr in base._table:
-                    return base._table[e.func.attr]
+                    tv = base._table[e.func.attr]
+                    if callable(tv):
+                        return tv(*[self._expr(a, env) for a in e.args])
+                    if not e.args:
+                        return tv
                 raise self.Unsupported(f"method {e.func.attr}")
         if isinstance(e, ast.Call) and isinstance(e.func, ast.Name) and e.func.id in getattr(self, "helpers", {}):
             h = self.helpers[e.func.id]
@@ -1366,7 +1398,66 @@ def c07(idx: Index, rep: Report, tier: str) -> None:
 
 
 # ------------------------------------------------------------------------------------ C13
+
+# ------------------------------------------------------------------------------------ C13 (more)
+def manager_constructors(idx: Index) -> Dict[str, Set[str]]:
+    """OperatorKind member -> names of the ExpressionManager methods that build a node of that kind (read off the
+    `create_node(node_type=OperatorKind.X, …)` calls)."""
+    em = idx.cls("model.expression.ExpressionManager")
+    out: Dict[str, Set[str]] = {}
+    for m in em.methods.values():
+        for c in walk_no_nested(m.node):
+            if isinstance(c, ast.Call) and call_name(c) == "create_node":
+                for a in list(c.args) + [k.value for k in c.keywords]:
+                    if isinstance(a, ast.Attribute) and norm(a.value).endswith("OperatorKind"):
+                        out.setdefault(a.attr, set()).add(m.name)
+    return out
+
+
+def identity_rebuild_agrees(idx: Index, rep: Report, rule: str) -> None:
+    """IdentityDagWalker rebuilds every node with the constructor of the node's own operator: the handler registered
+    for OperatorKind.X returns self.manager.<a constructor that builds X nodes>."""
+    from ..walkersdb import WalkerDB
+
+    db = WalkerDB(idx)
+    ci = idx.cls("model.walkers.identitydag.IdentityDagWalker")
+    ctors = manager_constructors(idx)
+    h = db.handlers(ci)
+    n = 0
+    for member in db.ops.members:
+        m = h.get(member)
+        if m is None or m.cls is not ci:
+            continue
+        rets = [r for r in walk_no_nested(m.node) if isinstance(r, ast.Return) and isinstance(r.value, ast.Call) and isinstance(r.value.func, ast.Attribute) and norm(r.value.func.value).endswith("manager")]
+        for r in rets:
+            n += 1
+            got = r.value.func.attr
+            want = ctors.get(member, set())
+            if want <= {"__init__"}:
+                continue  # the two Boolean constants are built once, in the manager's constructor
+            ok = got in want
+            rep.check(ok, rule, f"the handler of {member} rebuilds the node with a constructor of {member} nodes", m.loc(r), construct=f"{m.name}: self.manager.{got}(…)" + ("" if ok else f", constructors of {member}: {sorted(want)}"), detail="" if ok else f"every substitution (and every other identity walk) that passes through a {member} node turns it into a node of another operator, even when no key occurs in it", function=m.qualname)
+    rep.count("identity_handlers", n)
+    rep.require_min(rule, "identity_handlers", 25)
+
+
+def lookup_sentinel(idx: Index, rep: Report, rule: str) -> None:
+    """walk_replace_or_identity decides "is this node a key?" by a lookup whose not-found value cannot be a value of
+    the map: None / a membership test, never the node itself (a key mapped to itself would look absent)."""
+    wr = idx.func("model.walkers.substituter.Substituter.walk_replace_or_identity")
+    gets = [c for c in walk_no_nested(wr.node) if isinstance(c, ast.Call) and call_name(c) == "get" and c.args]
+    members = [c for c in walk_no_nested(wr.node) if isinstance(c, ast.Compare) and isinstance(c.ops[0], (ast.In, ast.NotIn))]
+    if not gets and not members:
+        raise AnalysisError(f"{rule}: no lookup of the node in the map in walk_replace_or_identity")
+    for c in gets:
+        default = c.args[1] if len(c.args) > 1 else None
+        ok = default is None or (isinstance(default, ast.Constant) and default.value is None)
+        rep.check(ok, rule, "the not-found value of the key lookup is None", wr.loc(c), construct=norm(c), detail="" if ok else f"`{norm(default)}` is used as the not-found value: a key that the map sends to that very value (an identity pair k -> k) is treated as absent, the node is rebuilt from its substituted children and keys nested inside it are replaced", function=wr.qualname)
+
+
 def c13(idx: Index, rep: Report, tier: str) -> None:
+    identity_rebuild_agrees(idx, rep, "C13.6 T7 identity-rebuild-agrees")
+    lookup_sentinel(idx, rep, "C13.7 lookup-sentinel")
     """Inside a quantifier a pair (k -> v) may be applied only if that cannot capture: besides the variables of the
     key k, the variables of the inserted value v must be compared with the bound variables (and the bound variable
     renamed, or the pair set aside). Substituter consults get_free_variables(k) only."""
@@ -1451,7 +1542,152 @@ def c09(idx: Index, rep: Report, tier: str) -> None:
     undefined_fluents_all_handled(idx, rep, "C09.7 T1 undefined-fluents-all-handled")
 
 
-EXTRA3 = {"C09": c09, "C13": c13, "C07": c07, "C12": c12, "C11": c11, "C10": c10, "C06": c06, "C04": c04, "C05": c05, "C01": c01, "C02": c02, "C03": c03, "C08": c08, "C35": c35, "C38": c38, "C36": c36, "C32": c32, "C33": c33, "C31": c31, "C17": c17, "C25": c25, "C20": c20, "C27": c27, "C28": c28}
+
+# ------------------------------------------------------------------------------------ C15
+def user_type_equality_symmetric(idx: Index, rep: Report, rule: str) -> None:
+    """walk_equals on two user types is interpreted on every ordered pair of types of a small universe of hierarchies
+    (a root with a chain of depth 2 and a branch of depth 1, and an unrelated root with one child): the verdict for
+    (t, x) and for (x, t) must agree. Bounded: hierarchies deeper than the universe are not covered."""
+    we = idx.func("model.walkers.type_checker.TypeChecker.walk_equals")
+    interp = _OrderInterp(we.node)
+    fathers = {"Thing": None, "Vehicle": "Thing", "Truck": "Vehicle", "Place": "Thing", "Other": None, "Sub": "Other"}
+    types: Dict[str, _Stub] = {}
+
+    def chain(n):
+        out = []
+        while n is not None:
+            out.append(types[n])
+            n = fathers[n]
+        return out
+
+    for name in fathers:
+        types[name] = _Stub(name, _key=name)
+    for name, st in types.items():
+        st._table.update(
+            is_user_type=True, is_bool_type=False, is_int_type=False, is_real_type=False, is_time_type=False,
+            father=(types[fathers[name]] if fathers[name] else None),
+            ancestors=_Prop(lambda n=name: chain(n)),
+            is_subtype=(lambda o, n=name: o in chain(n)),
+            is_compatible=(lambda o, n=name: types[n] in chain(o._name)),
+        )
+    n = 0
+    try:
+        names = sorted(fathers)
+        verdicts = {}
+        for a in names:
+            for b in names:
+                env = {"self": None, "expression": "e", "args": [types[a], types[b]], "BOOL": "BOOL"}
+                try:
+                    interp._block(we.node.body, env)
+                    v = "fell through"
+                except _Returned as r:
+                    v = "accepted" if r.value == "BOOL" else "rejected"
+                except _Raised:
+                    v = "rejected"
+                verdicts[(a, b)] = v
+        for i, a in enumerate(names):
+            for b in names[i + 1 :]:
+                n += 1
+                v1, v2 = verdicts[(a, b)], verdicts[(b, a)]
+                rep.check(v1 == v2, rule, f"Equals of a {a} and a {b} term is accepted in both orders or in neither", we.loc(), construct=f"({a}, {b}) -> {v1}; ({b}, {a}) -> {v2}", detail="" if v1 == v2 else "whether an equality between terms of two user types is well-formed depends on which operand is written first (the common-ancestor test is not symmetric)", function=we.qualname)
+    except _OrderInterp.Unsupported as u:
+        rep.inconclusive(rule, f"walk_equals is not interpretable on user types ({u})", we.loc(), function=we.qualname)
+        return
+    rep.count("user_type_pairs", n)
+
+
+def c15(idx: Index, rep: Report, tier: str) -> None:
+    user_type_equality_symmetric(idx, rep, "C15.4 T15 user-type-equality-symmetric")
+    # exact bounds: no rounding where inferred bounds are turned into types
+    rule = "C15.5 T10 no-rounding-of-bounds"
+    n = 0
+    for f in [x for x in idx.all_funcs() if x.module.name in ("unified_planning.model.type_manager", "unified_planning.model.walkers.type_checker", "unified_planning.model.types")]:
+        for c in walk_no_nested(f.node):
+            if isinstance(c, ast.Call) and (call_name(c) in ("limit_denominator", "round", "floor", "ceil", "trunc") or (isinstance(c.func, ast.Attribute) and norm(c.func.value) == "math" and c.func.attr not in ("isnan", "isinf", "inf"))):
+                n += 1
+                rep.bad(rule, f"{f.short}: bounds are kept exact", f.loc(c), construct=norm(c)[:80], detail="a bound is replaced by an approximation (limit_denominator caps the denominator at 10**6): the inferred interval no longer contains every value the expression can take", function=f.qualname)
+    rep.ok(rule, "type_manager.py / type_checker.py / types.py: no rounding call", "unified_planning/model/type_manager.py:1", construct=f"{n} offending calls")
+
+
+# ------------------------------------------------------------------------------------ C14
+def c14(idx: Index, rep: Report, tier: str) -> None:
+    # (a) what a failed walk leaves on the stack: the handler empties it, or cuts it back to a depth read *before*
+    # this walk pushed anything
+    rule = "C14.6 T2 stack-restored-to-entry-depth"
+    iw = idx.func("model.walkers.dag.DagWalker.iter_walk")
+    cfg = cfg_of(iw)
+    pushes = [nd for nd, c in cfg_nodes_with_call(cfg, "append") if norm(c.func.value) == "self.stack"]
+    n = 0
+    for h in [x for x in ast.walk(iw.node) if isinstance(x, ast.ExceptHandler)]:
+        for st in h.body:
+            for d in ast.walk(st):
+                if isinstance(d, ast.Delete):
+                    for t in d.targets:
+                        if isinstance(t, ast.Subscript) and norm(t.value) == "self.stack" and isinstance(t.slice, ast.Slice):
+                            n += 1
+                            lo = t.slice.lower
+                            if lo is None:
+                                rep.ok(rule, "the handler empties the stack", iw.loc(d), construct=norm(d), function=iw.qualname)
+                                continue
+                            ok = False
+                            if isinstance(lo, ast.Name):
+                                defs = [nd for nd in cfg.nodes if nd.kind == "stmt" and isinstance(nd.ast, ast.Assign) and norm(nd.ast.targets[0]) == lo.id]
+                                ok = bool(defs) and all(all(cfg.path_avoiding(p, dn, set()) is None for p in pushes) for dn in defs)
+                            rep.check(ok, rule, "the depth the stack is cut back to was read before this walk pushed anything", iw.loc(d), construct=norm(d), detail="" if ok else "the depth is read after the top-level entry was pushed: a walk that fails below its root leaves that entry on the shared walker's stack and the next walk pops it (spurious KeyError)", function=iw.qualname)
+                if isinstance(d, ast.Call) and call_name(d) == "clear" and norm(d.func.value) == "self.stack":
+                    n += 1
+                    rep.ok(rule, "the handler empties the stack", iw.loc(d), construct=norm(d), function=iw.qualname)
+    rep.count("stack_restores", n)
+    rep.require_min(rule, "stack_restores", 1)
+    # (b) a walker whose memoization persists between walks must not let a result depend on what the memo
+    # happens to contain (only DagWalker itself reads it, by key)
+    rule_b = "C14.7 T11 persistent-memo-read-only-by-the-walker-core"
+    k = 0
+    for q in ("model.walkers.simplifier.Simplifier",):
+        ci = idx.cls(q)
+        for m in ci.methods.values():
+            k += 1
+            reads = [x for x in walk_no_nested(m.node) if isinstance(x, ast.Attribute) and x.attr == "memoization" and norm(x.value) == "self"]
+            rep.check(not reads, rule_b, f"{ci.name}.{m.name} does not consult self.memoization", m.loc(reads[0]) if reads else m.loc(), construct=norm(reads[0]) if reads else m.name, detail="" if not reads else "the simplifier's memoization outlives a walk: a method that branches on its content returns different results (or fails / does not fail) depending on which expressions were simplified before", function=m.qualname)
+    rep.count("simplifier_methods", k)
+
+
+# ------------------------------------------------------------------------------------ C16
+def c16(idx: Index, rep: Report, tier: str) -> None:
+    """Nodes are created through the normalising constructors of ExpressionManager: create_node is called by the
+    manager's own methods only (a direct call elsewhere skips flattening / double-negation / constant rules)."""
+    rule = "C16.3 T11 create_node-called-by-the-manager-only"
+    em = idx.cls("model.expression.ExpressionManager")
+    n = 0
+    for f in idx.all_funcs():
+        for c in walk_no_nested(f.node):
+            if isinstance(c, ast.Call) and call_name(c) == "create_node":
+                n += 1
+                ok = f.cls is not None and (f.cls is em or em in f.cls.mro)
+                if not ok:
+                    from ..report import is_excepted
+
+                    reason = is_excepted(rep.prop, rule, f.qualname, "create_node")
+                    if reason:
+                        rep.ok(rule, f"{f.short}: create_node called outside the manager", f.loc(c), construct=norm(c)[:80], detail="triaged exception: " + reason, function=f.qualname)
+                        rep.count("triaged_exceptions")
+                        continue
+                rep.check(ok, rule, f"{f.short}: create_node is called from an ExpressionManager method", f.loc(c), construct=norm(c)[:80], detail="" if ok else "a node is built without going through the constructor that normalises it: `~~e` / an n-ary node with one child / a nested And is hash-consed as a structurally different node", function=f.qualname)
+    rep.count("create_node_calls", n)
+    rep.require_min(rule, "create_node_calls", 20)
+
+
+# ------------------------------------------------------------------------------------ leftover loop variables
+def leftover_loop_variables(idx: Index, rep: Report, rule: str, prefixes) -> None:
+    from ..rules2 import loop_variable_used_after_loop
+
+    n = loop_variable_used_after_loop(rep, rule, [f for f in idx.all_funcs() if f.module.name.startswith(tuple(prefixes))], report_ok=False)
+    rep.count("nested_loops", n)
+    rep.ok(rule, f"{n} nested loops: no statement reads the target of an inner loop after it", "unified_planning:1", construct=f"{n} nested loops")
+    rep.require_min(rule, "nested_loops", 5)
+
+
+EXTRA3 = {"C14": c14, "C16": c16, "C15": c15, "C09": c09, "C13": c13, "C07": c07, "C12": c12, "C11": c11, "C10": c10, "C06": c06, "C04": c04, "C05": c05, "C01": c01, "C02": c02, "C03": c03, "C08": c08, "C35": c35, "C38": c38, "C36": c36, "C32": c32, "C33": c33, "C31": c31, "C17": c17, "C25": c25, "C20": c20, "C27": c27, "C28": c28}
 
 
 def run_extra3(prop: str, idx: Index, rep: Report, tier: str) -> None:
